@@ -6,6 +6,7 @@ import Driver.Db
 import Driver.Writer
 import Driver.Conc
 import Driver.Sw
+import Driver.Stall
 open Driver
 
 structure DState where
@@ -17,6 +18,7 @@ structure DState where
   wr : WrSession := {}
   conc : ConcSession := {}
   sw : SwSession := {}
+  stall : StallSession := {}
 
 def step (s : DState) (line : String) : DState × String :=
   let ws := words line
@@ -43,7 +45,10 @@ def step (s : DState) (line : String) : DState × String :=
               | none =>
                 match swCmd s.sw ws with
                 | some (w, out) => ({ s with sw := w }, out)
-                | none => (s, "bad-op")
+                | none =>
+                  match stallCmd s.stall ws with
+                  | some (x, out) => ({ s with stall := x }, out)
+                  | none => (s, "bad-op")
 
 partial def loop (h : IO.FS.Stream) (out : IO.FS.Stream) (s : DState) : IO Unit := do
   let line ← h.getLine
